@@ -247,7 +247,7 @@ func (c *Ctx) inlinePolicy(f *types.Func) *ast.FuncDecl {
 		return nil
 	}
 	fi := c.P.ByObj[f]
-	if fi == nil || fi.Decl.Body == nil || (pinnedFuncs[fi.Name] && !c.alsoInline[fi.Name]) {
+	if fi == nil || fi.Decl.Body == nil || (pinnedFuncs[fi.Name] && !c.alsoInline[fi.Name]) || c.opaqueNew[fi.Name] {
 		return nil
 	}
 	return fi.Decl
